@@ -15,6 +15,7 @@ package hedgepolicy
 //@ extfunc github.com/failsafe-go/failsafe-go/policy.ExecutionInternal.CopyForHedge
 //@   modifies alloftype(atomic.Uint32)
 //@   ensures result != nil && implements(result, policy.ExecutionInternal) && fresh(payload(result))
+//@   ensures [C17.hedge_copy_is_marked] typeis(result, *failsafe.execution) ==> asref(result, *failsafe.execution).isHedge
 
 // W: one attempt. Runs the inner function once; sends at most one message, only after winning the CAS on resultSent,
 // and the message is the attempt's own result, either matching the cancel conditions or the last one to arrive.
@@ -29,6 +30,9 @@ package hedgepolicy
 //@   let r := cast(ret(innerFn, 1), *common.PolicyResult)
 //@   let cancellable := exists j int :: 0 <= j && j < len(e.abortConditions) && appb(e.abortConditions[j], r.Result, r.Error)
 //@   sendinv [C09.message] msg != nil && msg.result == ret(innerFn, 1) && msg.index == execIdx && atomval_bool(resultSent)
+//@   oldlet cnt := 0
+//@   oncall (*Int32).Add: cnt := ncalls(innerFn)
+//@   ensures [C09.attempt.counted_only_when_finished] cnt == 1
 //@   ensures [C09.attempt.once] ncalls(innerFn) == 1 && arg(innerFn, 1, 0) == hedgeExec
 //@   ensures [C09.attempt.at_most_one_send] nsends(resultChan) <= 1
 //@   ensures [C09.attempt.send_only_if_eligible] nsends(resultChan) == 1 ==> cancellable || atomval_int(resultCount) >= e.maxHedges + 1
@@ -41,6 +45,7 @@ package hedgepolicy
 // of policies that keep per-execution state without a lock (retry) do not: see lemmaHedgeOverRetry in retrypolicy.
 //@ func (*executor).Apply$1
 //@   beforecall e.onHedge: assert [C14.user_callback_gets_copy] userCopy(callarg_0.ExecutionAttempt)
+//@   beforecall e.onHedge: assert [C17.hedge.event_shows_the_counted_hedge+C16.hedge.event_shows_the_counted_hedge] typeis(callarg_0.ExecutionAttempt, *failsafe.execution) ==> asref(callarg_0.ExecutionAttempt, *failsafe.execution).isHedge
 //@   requires [C14.confinement.attempts_share_inner] reentrant(innerFn)
 //@   requires e != nil && e.hedgePolicy != nil && e.config != nil && e.BaseAbortablePolicy != nil && e.delayFunc != nil && innerFn != nil && typeis(exec, *failsafe.execution)
 //@   requires 0 <= e.maxHedges && e.maxHedges <= 1073741824
